@@ -83,7 +83,7 @@ fn plan(prop: u8) -> Vec<(&'static str, u64, u64)> {
         1 | 2 | 3 => vec![("adsr", 160_000, 3_000_000)],
         4 | 5 | 18 => vec![("midi", 400_000, 10_000_000)],
         6 => vec![("midi", 300_000, 6_000_000)],
-        7 | 9 | 19 => vec![("quant", 800_000, 20_000_000)],
+        7 | 9 | 19 => vec![("quant", 800_000, 12_000_000)],
         10 | 11 | 12 => vec![("lfo", 160_000, 3_000_000)],
         13 | 14 => vec![("glide", 150_000, 4_000_000)],
         15 | 16 => vec![("ribbon", 40_000, 1_000_000)],
